@@ -64,7 +64,8 @@ def model_to_json(m, grids):
         'objs': [{'sense': o['sense'], 'lin': {str(j): fr(c) for j, c in o['lin'].items()},
                   'nl': e2j(o['nl']) if o['nl'] is not None else None} for o in m.objs],
         'cons': [{'lb': fr(c['lb']), 'ub': fr(c['ub']), 'lin': {str(j): fr(cf) for j, cf in c['lin'].items()},
-                  'nl': e2j(c['nl']) if c['nl'] is not None else None} for c in m.cons],
+                  'nl': e2j(c['nl']) if c['nl'] is not None else None,
+                  'compl': list(c['compl']) if c.get('compl') is not None else None} for c in m.cons],
         'lcons': [e2j(l['expr']) for l in m.lcons],
         'sos': getattr(m, 'sos', []),     # list of {'type':1|2, 'vars':[j..], 'ref':[w..]}
     }
@@ -81,6 +82,8 @@ def model_from_json(J):
     for c in J['cons']:
         m.con(unfr(c['lb']), unfr(c['ub']), {int(j): unfr(cf) for j, cf in c['lin'].items()},
               j2e(c['nl']) if c['nl'] is not None else None)
+        if c.get('compl') is not None:
+            m.cons[-1]['compl'] = (int(c['compl'][0]), int(c['compl'][1]))      # (variable, NL flags)
     for l in J['lcons']:
         m.lcon(j2e(l))
     m.sos = [dict(s) for s in J.get('sos', [])]
@@ -112,6 +115,22 @@ def nl_feasible(m, x, cfg):
     """reference semantics of the NL model (with the SOS suffixes honoured iff cvt:sos=1)"""
     if not m.feasible(x):
         return False
+    for c in m.cons:
+        if c.get('compl') is not None:       # `body complements x_j` (AMPL semantics by the bounds of x_j)
+            j = c['compl'][0]
+            b = m.con_body(c, x)
+            xv = F(x[j])
+            lo, hi = m.vars[j]['lb'], m.vars[j]['ub']
+            if lo is not None and hi is not None:
+                ok = (xv == F(lo) and b >= 0) or b == 0 or (xv == F(hi) and b <= 0)
+            elif lo is not None:
+                ok = b >= 0 and (xv == F(lo) or b == 0)
+            elif hi is not None:
+                ok = b <= 0 and (xv == F(hi) or b == 0)
+            else:
+                ok = b == 0
+            if not ok:
+                return False
     if cfg.get('sos', 1) and not sos_ok(m, x):
         return False
     return True
@@ -1131,13 +1150,182 @@ def gen_pl2_case(rng, cfg):
     return m, grids
 
 
+def gen_misc_case(rng, cfg):
+    """count over NUMERIC arguments (non-binary: reified through `arg != 0`), alldiff / not-alldiff over small integer
+    variables (unary encoding), numberof with a variable reference value"""
+    m = Model()
+    grids = []
+    k = rng.rint(2, 3)
+    xs = []
+    for _ in range(k):
+        lo = rng.rint(-1, 1)
+        hi = lo + rng.rint(1, 2)
+        xs.append(m.var(lo, hi, True)); grids.append([F(v) for v in range(lo, hi + 1)])
+    z = m.var(0, 1, True); grids.append([F(0), F(1)])
+    y = m.var(F(-6), F(8), False); grids.append([F(-6), F(0), F(1), F(2), F(8)])
+    what = rng.below(4)
+    if what == 0:
+        # (numeric arguments are rejected by the NL reader: "expected logical expression"; the non-binary branch of
+        # count.h is therefore not reachable from NL input)
+        e = ('count', [('ne', ('v', j), ('n', F(0))) for j in xs] + ([('eq', ('v', z), ('n', 1))] if rng.chance(1, 2) else []))
+        c0 = F(rng.rint(0, k))
+        if rng.chance(1, 2):
+            m.con(c0, None if rng.chance(1, 2) else c0 + 1, lin={y: 1}, nl=e)
+        else:
+            m.lcon((rng.choice(['ge', 'le', 'eq']), e, ('n', c0)))
+        _strip_types(cfg, ['CountConstraint'])
+    elif what == 1:
+        L = ('alldiff', [('v', j) for j in xs])
+        m.lcon(L if rng.chance(2, 3) else ('or', L, ('eq', ('v', z), ('n', 1))))
+        _strip_types(cfg, ['AllDiffConstraint'])
+    elif what == 2:
+        L = ('notalldiff', [('v', j) for j in xs])
+        m.lcon(L if rng.chance(1, 2) else ('implies', ('eq', ('v', z), ('n', 1)), L, ('T',)))
+        _strip_types(cfg, ['AllDiffConstraint'])
+    else:
+        e = ('numberof', ('v', xs[0]), [('v', j) for j in xs[1:]] + [('n', F(rng.rint(-1, 2)))])
+        m.con(None, F(rng.rint(0, 2)), lin={y: 1}, nl=e)
+        _strip_types(cfg, ['NumberofVarConstraint'])
+    if rng.chance(1, 2):
+        m.con(None, F(rng.rint(1, 4)), lin={xs[0]: 1, xs[1]: 1})
+    return m, grids
+
+
+TEMPLATE_KINDS = ['shared', 'pl2', 'pow', 'shared', 'div', 'pl2', 'compl', 'misc']
+
+
+def gen_pow_case(rng, cfg):
+    """powers with constant natural exponents (x^2 via sqr / ^2, x^3, x^4, x*x), exact when quadratics are accepted"""
+    m = Model()
+    grids = []
+    y = m.var(F(-20), F(40), False); grids.append([F(-20), F(-3), F(0), F(5), F(40)])
+    xs = []
+    for _ in range(rng.rint(1, 2)):
+        pat = rng.below(4)
+        lo = [0, -2, -3, 1][pat]
+        hi = lo + rng.rint(1, 3) if pat != 2 else 0
+        isint = rng.chance(1, 2)
+        xs.append(m.var(lo, hi, isint))
+        g = [F(v) for v in range(lo, hi + 1)]
+        if not isint:
+            g = sorted(set(g + [F(2 * lo + 1, 2)]))
+        grids.append(g)
+
+    def pw(j):
+        k = rng.below(6)
+        if k == 0:
+            return ('sqr', ('v', j))
+        if k == 1:
+            return ('powc', ('v', j), ('n', F(2)))
+        if k == 2:
+            return ('powc', ('v', j), ('n', F(3)))
+        if k == 3:
+            return ('powc', ('v', j), ('n', F(rng.choice([4, 1, 0]))))
+        if k == 4:
+            return ('*', ('v', j), ('v', j))
+        return ('powc', ('+', ('v', j), ('n', F(1))), ('n', F(2)))
+    for j in xs:
+        e = pw(j)
+        if rng.chance(1, 3):
+            e = ('*', ('n', F(rng.choice([-1, 2, -2]))), e)
+        c0 = F(rng.rint(-4, 12))
+        r = rng.below(3)
+        if r == 0:
+            m.con(None, c0, lin={y: 1}, nl=e)
+        elif r == 1:
+            m.con(c0 - 8, None, lin={y: 1}, nl=e)
+        else:
+            m.con(c0 - 3, c0 + 3, lin={y: 1}, nl=e)
+    if rng.chance(1, 3):
+        m.obj(rng.choice(['min', 'max']), lin={y: 1}, nl=pw(xs[0]))
+    if rng.chance(5, 6):          # quadratics accepted: the exact route
+        for t in QUAD3 + ['QuadConRange']:
+            if t not in cfg['accept']:
+                cfg['accept'].append(t)
+        cfg['options'] = [o for o in cfg['options'] if not o.startswith(('acc:quad', 'cvt:quadcon'))]
+    return m, grids
+
+
+def gen_div_case(rng, cfg):
+    """division by a variable (positive / negative / zero-crossing divisor domain) and by fixed variables"""
+    m = Model()
+    grids = []
+    y = m.var(F(-12), F(12), False); grids.append([F(-12), F(-2), F(0), F(1), F(12)])
+    a = rng.rint(1, 4)
+    x = m.var(-a, a, True); grids.append([F(v) for v in range(-a, a + 1)])
+    pat = rng.below(4)
+    lo, hi = [(1, 4), (-3, -1), (-2, 2), (2, 2)][pat]
+    d = m.var(lo, hi, True); grids.append([F(v) for v in range(lo, hi + 1)])
+    num = rng.choice([('v', x), ('+', ('v', x), ('n', F(1))), ('*', ('n', F(2)), ('v', x)), ('n', F(4))])
+    e = ('/', num, ('v', d))
+    c0 = F(rng.rint(-3, 5))
+    r = rng.below(4)
+    if r == 0:
+        m.con(None, c0, lin={y: 1}, nl=e)
+    elif r == 1:
+        m.con(c0, None, lin={y: 1}, nl=e)
+    elif r == 2:
+        m.con(c0, c0 + 2, lin={y: 1}, nl=e)
+    else:
+        m.lcon((rng.choice(['le', 'ge', 'eq']), e, ('n', F(rng.rint(-2, 2)))))
+    if rng.chance(5, 6):
+        for t in QUAD3 + ['QuadConRange']:
+            if t not in cfg['accept']:
+                cfg['accept'].append(t)
+        cfg['options'] = [o for o in cfg['options'] if not o.startswith(('acc:quad', 'cvt:quadcon'))]
+    _strip_types(cfg, ['DivConstraint'])
+    return m, grids
+
+
+def gen_compl_case(rng, cfg):
+    """complementarity rows `body complements x_j` for the three bound patterns of the complementing variable, linear and
+    (sometimes) quadratic bodies; ComplementarityLinear/Quadratic accepted natively or reformulated"""
+    m = Model()
+    grids = []
+    pat = rng.below(4)
+    if pat == 0:
+        lo, hi = 0, None          # x >= 0
+    elif pat == 1:
+        lo, hi = None, rng.rint(0, 2)
+    else:
+        lo = rng.rint(-1, 1)
+        hi = lo + rng.rint(1, 3)
+    isint = rng.chance(2, 3)
+    glo = lo if lo is not None else hi - 3
+    ghi = hi if hi is not None else lo + 3
+    x = m.var(lo, hi, isint); grids.append([F(v) for v in range(glo, ghi + 1)])
+    b = rng.rint(1, 3)
+    y = m.var(-b, b, True); grids.append([F(v) for v in range(-b, b + 1)])
+    z = m.var(0, 1, True); grids.append([F(0), F(1)])
+    lin = {y: F(rng.choice([1, -1, 2])), z: F(rng.choice([1, -1, 2, -2]))}
+    if rng.chance(1, 2):
+        lin[x] = F(rng.choice([1, -1]))
+    nl = ('n', F(rng.rint(-2, 2)))
+    if rng.chance(1, 5):
+        nl = ('+', ('*', ('v', y), ('v', z)), nl)
+    m.con(None, None, lin=lin, nl=nl)
+    m.cons[-1]['compl'] = (x, 3 if (lo is not None and hi is not None) else (1 if lo is not None else 2))
+    if rng.chance(1, 2):
+        m.con(None, F(rng.rint(0, 4)), lin={x: 1, y: 1})
+    if rng.chance(1, 3):
+        m.obj(rng.choice(['min', 'max']), lin={x: 1, y: F(rng.choice([1, -2]))})
+    if rng.chance(2, 3):
+        _strip_types(cfg, ['ComplementarityLinear', 'ComplementarityQuadratic'])
+    else:
+        for t in ('ComplementarityLinear', 'ComplementarityQuadratic'):
+            if t not in cfg['accept']:
+                cfg['accept'].append(t)
+    return m, grids
+
+
 def gen_case(seed, index, tier='quick'):
     rng = Rng((seed * 0x9E3779B1 + index * 0x85EBCA77 + 12345) & 0xFFFFFFFFFFFFFFFF)
     if index % 8 == 3:
         # targeted templates (1/8 of the stream): shared reified comparisons / several PL terms
-        kind = 'shared' if (index // 8) % 2 == 0 else 'pl2'
+        kind = TEMPLATE_KINDS[(index // 8) % len(TEMPLATE_KINDS)]
         cfg, quad_con, quad_obj = gen_cfg(rng, 'mixed')
-        mm, grids = gen_shared_case(rng, cfg) if kind == 'shared' else gen_pl2_case(rng, cfg)
+        mm, grids = {'shared': gen_shared_case, 'pl2': gen_pl2_case, 'pow': gen_pow_case, 'div': gen_div_case,
+                     'compl': gen_compl_case, 'misc': gen_misc_case}[kind](rng, cfg)
         return {'model': model_to_json(mm, grids), 'cfg': cfg, 'profile': 'tmpl-' + kind, 'id': '%d:%d' % (seed, index)}
     profile = PROFILE_ORDER[index % len(PROFILE_ORDER)]
     cfg, quad_con, quad_obj = gen_cfg(rng, profile)
